@@ -61,6 +61,8 @@ ALL_FEATURES = [
     # --- rung 3 ---
     "typed_user_globals",   # globals annotated with user-defined types:  p : T : comptime {..}
     "global_readers",       # globals that read other aggregate globals:  r :: comptime { p.a }
+    "struct_cast",          # a second struct with the same member names (other order, other int
+                            # widths) and a function that casts one into the other:  S2.(s)
 ]
 
 
@@ -995,6 +997,63 @@ class _Gen:
         self.p.add(it)
         self.int_consts.append(name)
 
+    def mk_struct_cast(self):
+        """S2 has S's member names in another order and wider integer types; cv casts S -> S2"""
+        r = self.rnd
+        cands = [sn for sn, fields in sorted(self.structs.items())
+                 if len(fields) >= 2 and all(ft[0] == "int" for _, ft in fields)]
+        if not cands:
+            cands = [self._plain_int_struct()]
+        src = r.choice(cands)
+        widen = {"u8": ["u8", "u16", "i64", "u64"], "u16": ["u16", "i64", "u64"], "i32": ["i32", "i64"],
+                 "u64": ["u64"], "i64": ["i64"]}
+        dst_fields = [(fn, ("int", r.choice(widen[ft[1]]))) for fn, ft in self.structs[src]]
+        for _ in range(4):
+            r.shuffle(dst_fields)
+            if [f for f, _ in dst_fields] != [f for f, _ in self.structs[src]]:
+                break
+        dst = self.fresh("S")
+        it = Item(dst, "struct")
+        self.structs[dst] = dst_fields
+        it.render = lambda ref: "%s :: struct { %s };" % (
+            dst, ", ".join("%s: %s" % (fn, ft[1]) for fn, ft in dst_fields))
+        self.p.add(it)
+        fname = self.fresh("cv")
+        fit = Item(fname, "fn_cast")
+        fit.is_function = True
+        fit.deps |= {src, dst}
+        fit.render = lambda ref: "%s :: (s: %s) -> %s {\n    %s.(s)\n}" % (fname, ref(src), ref(dst), ref(dst))
+        seed = r.randint(1, 20)
+        tds, tdd = ("named", src), ("named", dst)
+
+        def uses(ref, tmp):
+            v = tmp("c")
+            return ["%s := %s(%s);" % (v, ref(fname), self.value_text(tds, ref, str(seed))),
+                    "emit(%s);" % self.digest_text(tdd, ref, v)]
+
+        fit.uses = uses
+        self.p.add(fit)
+
+    def _plain_int_struct(self):
+        r = self.rnd
+        sname = self.fresh("S")
+        it = Item(sname, "struct")
+        fields = [("m%d" % i, ("int", r.choice(["u8", "u16", "i32", "i64"]))) for i in range(r.randint(2, 5))]
+        self.structs[sname] = fields
+        td = ("named", sname)
+        it.render = lambda ref: "%s :: struct { %s };" % (
+            sname, ", ".join("%s: %s" % (fn, ft[1]) for fn, ft in fields))
+        seed = r.randint(1, 20)
+
+        def uses(ref, tmp):
+            v = tmp("s")
+            return ["%s : %s = %s;" % (v, ref(sname), self.value_text(td, ref, str(seed))),
+                    "emit(%s);" % self.digest_text(td, ref, v)]
+
+        it.uses = uses
+        self.p.add(it)
+        return sname
+
     def build(self):
         self.add_prelude()
         r = self.rnd
@@ -1042,6 +1101,8 @@ class _Gen:
             menu.append(("typed_literal", self.mk_typed_literal, 2))
         if "global_readers" in f:
             menu.append(("global_reader", self.mk_global_reader, 2))
+        if "struct_cast" in f:
+            menu.append(("struct_cast", self.mk_struct_cast, 2))
         weights = [w for _, _, w in menu]
         guard = 0
         while self.count_globals() < self.n and guard < 100:
